@@ -132,6 +132,14 @@ class C08(EngineProp):
 
     def cases(self, rng, tier):
         out = super().cases(rng, tier)
+        # "a client's first frame on a connection is SETUP, sent once": the connect-order scenarios of C16 (requests and lease grants issued
+        # while the transport is still connecting), judged here for this clause
+        from harness.props import c16
+        for c in c16.PROP.cases(rng, 'quick'):
+            if c['kind'] == 'order':
+                out.append({'kind': 'setup-order', 'role': 'client', 'profile': 'setup-order', 'c16': c})
+                if len([1 for x in out if x.get('kind') == 'setup-order']) >= (60 if tier == 'quick' else 1500):
+                    break
         # lease-gated requests: other frames of the stream must not overtake the request held back by the lease
         for _ in range(40 if tier == 'quick' else 1000):
             out.append({'role': 'client', 'profile': 'lease', 'kind': 'lease', 'kinds': [rng.choice(['stream', 'channel', 'rr']) for _ in range(rng.randint(1, 3))],
@@ -139,6 +147,9 @@ class C08(EngineProp):
         return out
 
     def run_impl(self, case):
+        if case.get('kind') == 'setup-order':
+            from harness.props import c16
+            return c16.PROP.run_impl(case['c16'])
         if case.get('kind') == 'lease':
             from harness import detloop
             return detloop.run(self._lease, case)
@@ -197,16 +208,18 @@ class C08(EngineProp):
         return {'steps': [['LEASE-SCENARIO', toks]], 'final': {'table': [], 'cache': []}, 'script': [], 'extra': None, 'kinds': [], 'sids': []}
 
     def model_lines(self, case, obs):
-        if case.get('kind') == 'lease':
+        if case.get('kind') in ('lease', 'setup-order'):
             return []
         return super().model_lines(case, obs)
 
     def compare(self, case, obs, answers):
-        if case.get('kind') == 'lease':
+        if case.get('kind') in ('lease', 'setup-order'):
             return None
         return super().compare(case, obs, answers)
 
     def shrink_candidates(self, case):
+        if case.get('kind') == 'setup-order':
+            return
         if case.get('kind') == 'lease':
             for i in range(len(case['kinds'])):
                 if len(case['kinds']) > 1:
@@ -214,7 +227,22 @@ class C08(EngineProp):
             return
         yield from super().shrink_candidates(case)
 
+    def nontrivial(self, case, obs):
+        if case.get('kind') == 'setup-order':
+            import json
+            return json.dumps(case['c16'], sort_keys=True)
+        return super().nontrivial(case, obs)
+
+    def stats(self, case, obs):
+        if case.get('kind') == 'setup-order':
+            yield 'kind=setup-order'
+            return
+        yield from super().stats(case, obs)
+
     def oracle(self, case, obs):
+        if case.get('kind') == 'setup-order':
+            from harness.props import c16
+            return [f for f in c16.PROP.oracle(case['c16'], obs) if f['signature'] in ('frame-before-setup', 'setup-count')]
         parity = 0 if case['role'] == 'server' else 1
         seen = set()
         fails = []
